@@ -4,7 +4,7 @@
 //@needs pub fn from_timestamps(mut ts: Vec<i64>, stride: i64, fence_count: usize) -> Self {
 //@function src/engine/core/time/zone_temporal_index.rs::from_timestamps
 //@harness name=from_timestamps_wf_n2 kind=bounded bound="2 timestamps" tier=thorough timeout=1500 gate=yes
-//@harness name=from_timestamps_wf_n3 kind=bounded bound="3 timestamps" tier=thorough timeout=3000 gate=yes
+//@harness name=from_timestamps_wf_n3 kind=bounded bound="3 timestamps" tier=manual timeout=3000 gate=yes
 //@harness name=from_timestamps_empty kind=complete tier=quick timeout=300
 //@obligation C08.temporal_builder.from_timestamps.establishes_wf : the index built from a timestamp multiset satisfies the representation invariant wf used by the Verus probe contracts (stride 1, keys strictly sorted from 0, min/max are the extremes, span fits i64)
 //@obligation C08.temporal_builder.from_timestamps.view_is_input_set : every input timestamp is stored (min + key) and every stored key comes from an input timestamp
